@@ -392,14 +392,14 @@ pub fn whole_node_loss_recovery_for(report: &Report, tier: Tier, prop: &'static 
     // traffic for a while, starting at different points inside a slot. What it missed (e.g. the
     // notarization certificate of a tip the others finalized with its votes) can only come back
     // through the standstill bundles.
-    for from in tier.pick(vec![2400u64, 2600, 2800], (2400..=3200).step_by(50).collect()) {
+    for from in tier.pick(if slow_path_only { vec![2600u64] } else { vec![2400u64, 2600, 2800] }, (2400..=3200).step_by(50).collect()) {
         jobs.push((5, "slow-path-one-of-three-live-nodes-cut-off", from, from + 2000));
     }
     // stakes [27, 27, 27, 19]: the third node is cut off while the other three (73 %) go on finalizing
     // on the slow path without it; then the 19 % node crashes for good and the links heal. From then
     // on the laggard is needed for every quorum, and what it missed - incl. the notarization
     // certificate of a tip the others finalized without it - can only reach it in the bundles.
-    for from in tier.pick(vec![2400u64, 2600, 2800], (2400..=3200).step_by(100).collect()) {
+    for from in tier.pick(if slow_path_only { vec![2400u64, 2800] } else { vec![2400u64, 2600, 2800] }, (2400..=3200).step_by(100).collect()) {
         jobs.push((4, "laggard-then-crash-of-the-19-percent-node", from, from + 2400));
     }
     let results: Vec<Value> = jobs
